@@ -7,7 +7,9 @@ import (
 
 	"verif/engine/evid"
 	"verif/engine/shard"
+	"verif/props/c09"
 	"verif/props/c10"
+	"verif/props/c12"
 )
 
 type prop struct {
@@ -16,7 +18,9 @@ type prop struct {
 }
 
 var props = map[string]prop{
+	"C09": {"model_checking", c09.Run},
 	"C10": {"model_checking", c10.Run},
+	"C12": {"model_checking", c12.Run},
 }
 
 func main() {
